@@ -2,6 +2,7 @@ package verifsim
 
 import (
 	"fmt"
+	"math"
 	"os"
 	"math/rand"
 	"runtime"
@@ -20,6 +21,7 @@ func init() { props["C13"] = runC13 }
 const (
 	c13Hot   = "hx" // index with the shared hot node
 	c13Churn = "cx" // index the admin compresses / drops / re-creates
+	c13Quant = "qx" // int8 index whose first inserts race (quantiser training)
 )
 
 type c13Rec struct {
@@ -83,6 +85,27 @@ func c13Ops(w *World) [][]Op {
 					// (an add succeeds only on an absent id, a delete only on a present one)
 					uniq++
 					ops = append(ops, Op{K: pick(r, []string{"add", "add", "del"}), Idx: c13Hot, ID: fmt.Sprintf("s%d", r.Intn(2)), Vec: genVec(r, 3), Meta: map[string]any{"owner": float64(c), "u": float64(uniq*10 + c)}})
+				case x == 2 && r.Intn(2) == 0:
+					// metadata updates and reinforcements of the shared ids too: the per-node lock of a node somebody
+					// else is deleting right now, with a snapshot asking for the write gate in between
+					uniq++
+					if r.Intn(2) == 0 {
+						ops = append(ops, Op{K: "setmeta", Idx: c13Hot, ID: fmt.Sprintf("s%d", r.Intn(2)), Meta: map[string]any{fmt.Sprintf("x%d_%d", c, uniq): float64(uniq)}})
+					} else {
+						ops = append(ops, Op{K: "reinforce", Idx: c13Hot, IDs: []string{fmt.Sprintf("s%d", r.Intn(2))}})
+					}
+				case x == 3 && r.Intn(2) == 0:
+					// a batch of two to four ids from a small shared pool, in random order, with metadata: overlapping
+					// batches from several clients (per-id insert locks taken for a whole batch, the id map read while
+					// others insert)
+					pool := []string{"b0", "b1", "b2", "b3", "b4"}
+					r.Shuffle(len(pool), func(i, j int) { pool[i], pool[j] = pool[j], pool[i] })
+					var items []Item
+					for _, id := range pool[:2+r.Intn(3)] {
+						uniq++
+						items = append(items, Item{ID: id, Vec: genVec(r, 3), Meta: map[string]any{"owner": float64(c), "u": float64(uniq*10 + c)}})
+					}
+					ops = append(ops, Op{K: "addbatch", Idx: c13Hot, Items: items})
 				case x == 1 && own > 0:
 					// delete, then look at once (no settling in between): the id is gone for every reader the
 					// moment the delete is acknowledged, not when its background cascade gets round to it
@@ -110,7 +133,28 @@ func c13Ops(w *World) [][]Op {
 			uniq++
 			first := Op{K: "add", Idx: c13Hot, ID: "s0", Vec: genVec(r, 3), Meta: map[string]any{"owner": float64(c), "u": float64(uniq*10 + c)}}
 			at := r.Intn(min(3, len(tasks[c])+1))
-			tasks[c] = append(tasks[c][:at:at], append([]Op{first}, tasks[c][at:]...)...)
+			ins := []Op{first}
+			if r.Intn(2) == 0 {
+				// ... and by inserting an overlapping batch, its ids in an order of its own
+				pool := []string{"b0", "b1", "b2"}
+				r.Shuffle(len(pool), func(i, j int) { pool[i], pool[j] = pool[j], pool[i] })
+				var items []Item
+				for _, id := range pool[:2+r.Intn(2)] {
+					uniq++
+					items = append(items, Item{ID: id, Vec: genVec(r, 3), Meta: map[string]any{"owner": float64(c), "u": float64(uniq*10 + c)}})
+				}
+				ins = append(ins, Op{K: "addbatch", Idx: c13Hot, Items: items})
+			}
+			tasks[c] = append(tasks[c][:at:at], append(ins, tasks[c][at:]...)...)
+		}
+	}
+	if r.Intn(4) == 0 {
+		// every client's first insert goes to a fresh int8 index (created in the set-up when this op kind occurs): the
+		// quantiser is trained by the first insert, and several first inserts arrive at once
+		shapes := [][]float32{{1, 0, 0}, {1, 1, 1}, {0.2, 0.9, 0.1}, {5, 1, 0.5}, {0, 0.3, -1}}
+		for c := range tasks {
+			first := Op{K: "add", Idx: c13Quant, ID: fmt.Sprintf("c%dq1", c), Vec: append([]float32(nil), shapes[r.Intn(len(shapes))]...)}
+			tasks[c] = append([]Op{first}, tasks[c]...)
 		}
 	}
 	// admin
@@ -313,6 +357,17 @@ func runC13(w *World, tr *Trace) {
 		must(e.VAdd(c13Hot, "a", []float32{0, 1, 0}, nil))
 		must(e.VAdd(c13Hot, "b", []float32{0, 0, 1}, nil))
 		must(e.VAdd(c13Churn, "seed", []float32{1, 1, 1}, nil))
+		hasQuant := false
+		for _, ops := range taskOps {
+			for _, o := range ops {
+				if o.Idx == c13Quant {
+					hasQuant = true
+				}
+			}
+		}
+		if hasQuant {
+			must(e.VCreate(c13Quant, "cosine", 8, 40, "int8", "", nil, nil, nil))
+		}
 		if autoLink {
 			must(e.VUpdateAutoLinks(c13Hot, []hnsw.AutoLinkRule{{MetadataField: "parent", RelationType: "child_of", CreateNode: true}}))
 		}
@@ -373,6 +428,9 @@ func runC13(w *World, tr *Trace) {
 					ackedReinforce++
 				}
 			case "setmeta":
+				if rc.op.ID != "hot" {
+					continue
+				}
 				if rc.err == nil && before {
 					for k := range rc.op.Meta {
 						mergedKeys[k] = true
@@ -398,9 +456,16 @@ func runC13(w *World, tr *Trace) {
 					refused[u] = rc.op.String()
 				}
 			}
+			if rc.op.K == "addbatch" && rc.err != nil && strings.Contains(rc.err.Error(), "already exists") {
+				for _, it := range rc.op.Items { // a refused batch leaves none of its items behind
+					if u, ok := it.Meta["u"].(float64); ok {
+						refused[u] = rc.op.String() + " (item " + it.ID + ")"
+					}
+				}
+			}
 		}
 		checkShared := func(e *engine.Engine, where string) {
-			for _, id := range []string{"s0", "s1"} {
+			for _, id := range []string{"s0", "s1", "b0", "b1", "b2", "b3", "b4"} {
 				vd, err := e.VGet(c13Hot, id)
 				if err != nil {
 					continue
@@ -466,6 +531,30 @@ func runC13(w *World, tr *Trace) {
 			}
 			checkHot(w.E, "live")
 			checkShared(w.E, "live")
+			// int8 read-back: every acknowledged vector of the int8 index within one rounding step of what was stored
+			// (clipped to the trained range), whatever the order in which the first inserts trained the quantiser
+			if am := float64(w.int8Range(c13Quant)); am > 0 && !w.Failed() {
+				for _, rc := range recs {
+					if rc.op.K != "add" || rc.op.Idx != c13Quant || rc.err != nil {
+						continue
+					}
+					vd, gerr := w.E.VGet(c13Quant, rc.op.ID)
+					if gerr != nil || len(vd.Vector) != len(rc.op.Vec) {
+						continue
+					}
+					want := rc.op.Vec // cosine vectors are normalised for float32 storage only; int8 quantises the vector as given
+					for j := range want {
+						x := math.Max(-am, math.Min(am, float64(want[j])))
+						if math.Abs(float64(vd.Vector[j])-x) > 1.5*am/127+1e-6 {
+							w.Fail("per_item_serial", "int8_readback_off", fmt.Sprintf("live: %s of the int8 index reads back %v, stored %v, trained range %g: component %d is off by %.1f rounding steps", rc.op.ID, vd.Vector, want, am, j, math.Abs(float64(vd.Vector[j])-x)/(am/127)), -1)
+							break
+						}
+					}
+					if w.Failed() {
+						break
+					}
+				}
+			}
 			c13Structure(w, "live")
 			if err := w.E.Close(); err != nil {
 				w.Probe("close_error")
